@@ -316,6 +316,11 @@ def other_observations(tier):
                             ('svg', ['--scale', '2.9999999'], {'scale': 2.9999999}), ('png', ['--scale', '0.9999999'], {'scale': 0.9999999}),
                             ('svg', ['--scale', '0.123456789'], {'scale': 0.123456789}), ('eps', ['--scale', '1234.5678'], {'scale': 1234.5678}),
                             ('pdf', ['--scale', '2.0'], {'scale': 2}), ('svg', ['--scale', '10.0'], {'scale': 10}),
+                            # colour / cell values reach the serialiser exactly as typed (letter case: TXT and LaTeX write the value verbatim)
+                            ('txt', ['--dark', 'X', '--light', '_'], {'dark': 'X', 'light': '_'}), ('txt', ['--dark', 'A', '--light', 'a'], {'dark': 'A', 'light': 'a'}),
+                            ('tex', ['--dark', 'RoyalBlue'], {'dark': 'RoyalBlue'}), ('tex', ['--dark', 'BLACK', '--scale', '2'], {'dark': 'BLACK', 'scale': 2}),
+                            ('svg', ['--dark', '#AbCdEf', '--light', 'YELLOW'], {'dark': '#AbCdEf', 'light': 'YELLOW'}), ('png', ['--dark', 'DarkBlue', '--light', '#FFFF00'], {'dark': 'DarkBlue', 'light': '#FFFF00'}),
+                            ('svg', ['--finder-dark', 'RED'], {'finder_dark': 'RED'}), ('eps', ['--dark', 'NAVY'], {'dark': 'NAVY'}), ('xpm', ['--dark', 'Red', '--light', '#FfF'], {'dark': 'Red', 'light': '#FfF'}),
                             ('svg', ['--title', ''], {'title': ''}), ('svg', ['--desc', ''], {'desc': ''}), ('svg', ['--svgid', ''], {'svgid': ''}),
                             ('svg', ['--svgclass', ''], {'svgclass': ''}), ('svg', ['--lineclass', ''], {'lineclass': ''}), ('svg', ['--border', '0'], {'border': 0}),
                             ('png', ['--border', '0'], {'border': 0}), ('png', ['--dpi', '0'], {'dpi': 0}), ('txt', ['--border', '0'], {'border': 0}),
